@@ -175,31 +175,33 @@ func runC07(cx *Ctx, r *Report) {
 		}
 	}
 	// ------------------------------------------------ (3) respond: tax split + both tallies
+	// anchored on the provider tally being raised: the frame that does it must also
+	// forward the tax and raise the owner tally by the same term
 	nResp := 0
 	for _, name := range sortedKeys(per) {
 		evs := per[name]
-		tax := pick(evs, "bank.SendCoinsFromModuleToModule", func(x hev) bool { return x.ev.Args[1].LooseString() == reqAcc })
-		if len(tax) == 0 {
-			continue
+		for _, x := range pick(evs, "bank.SendCoinsFromModuleToModule", func(x hev) bool { return x.ev.Args[1].LooseString() == reqAcc }) {
+			mark(x)
 		}
-		mark(tax...)
-		for _, t := range tax {
+		for _, p := range pick(evs, "store.set", func(x hev) bool {
+			return hasPrefix(x.ev, "service:EarnedFeesKey=0x18") && strings.Contains(x.ev.Args[1].LooseString(), "sdk.Coins.Add(")
+		}) {
 			nResp++
-			fr := t.ev.Fr
-			pt := pick(evs, "store.set", func(x hev) bool { return hasPrefix(x.ev, "service:EarnedFeesKey=0x18") && x.ev.Fr.Parent == fr })
+			fr := p.ev.Fr.Parent
+			tax := pick(evs, "bank.SendCoinsFromModuleToModule", func(x hev) bool { return x.ev.Args[1].LooseString() == reqAcc && x.ev.Fr == fr })
 			ot := pick(evs, "store.set", func(x hev) bool { return hasPrefix(x.ev, "service:OwnerEarnedFeesKey=0x19") && x.ev.Fr.Parent == fr })
-			ok := len(pt) == 1 && len(ot) == 1 && t.ev.Args[2].LooseString() == "keeper.feeCollectorName"
-			taxS := lastArgS(t.ev)
+			ok := len(tax) == 1 && len(ot) == 1 && tax[0].ev.Args[2].LooseString() == "keeper.feeCollectorName"
 			if ok {
-				earned := findSub(pt[0].ev.Args[1], func(x *Term) bool { return x.Op == "call" && x.Name == "sdk.Coins.SafeSub" })
+				taxS := lastArgS(tax[0].ev)
+				earned := findSub(p.ev.Args[1], func(x *Term) bool { return x.Op == "call" && x.Name == "sdk.Coins.SafeSub" })
 				earned2 := findSub(ot[0].ev.Args[1], func(x *Term) bool { return x.Op == "call" && x.Name == "sdk.Coins.SafeSub" })
 				ok = earned != nil && earned2 != nil && earned.LooseString() == earned2.LooseString() && len(earned.Args) == 2 &&
 					strings.Contains(taxS, "TruncateInt") && strings.Contains(taxS, "ServiceFeeTax") && strings.Contains(taxS, earned.Args[0].LooseString()) &&
 					strings.Contains(earned.Args[1].LooseString(), "TruncateInt") &&
-					strings.Contains(pt[0].ev.Args[1].LooseString(), "sdk.Coins.Add(") && strings.Contains(ot[0].ev.Args[1].LooseString(), "sdk.Coins.Add(") &&
-					strings.HasSuffix(earned.Args[0].LooseString(), ".ServiceFee")
+					strings.Contains(ot[0].ev.Args[1].LooseString(), "sdk.Coins.Add(") &&
+					strings.HasSuffix(earned.Args[0].LooseString(), ".ServiceFee") && tax[0].ev.Fr.Call != nil && orderedBefore(tax[0].ev, p.ev)
 			}
-			r.check(ok, "respond-split", name, t.ev.Pos(cx), "⌊fee·tax⌋ goes from the request escrow to the fee collector and fee−tax (one term, fee = the request's recorded ServiceFee) is added to both the provider and the owner tally", name+": the fee of an answered request is not split as tax→collector and (fee−tax)→both tallies with shared terms")
+			r.check(ok, "respond-split", name, p.ev.Pos(cx), "⌊fee·tax⌋ goes from the request escrow to the fee collector and fee−tax (one term, fee = the request's recorded ServiceFee) is added to both the provider and the owner tally", name+": the fee of an answered request is not split as tax→collector and (fee−tax)→both tallies with shared terms")
 		}
 	}
 	if nResp < 2 {
